@@ -107,21 +107,30 @@ def c10(tier, repo=None):
     # 1. model level ------------------------------------------------------------------------------------------------
     if thorough:
         fixed = [("par2", dict(mg=2, multi=True)), ("seq", dict(mg=2)), ("nestdup", dict(mu=3, mo=3)), ("par3", dict(mu=4, mo=4)),
-                 ("nest", dict(mu=3, mo=3))]
+                 ("nest", dict(mu=3, mo=3)), ("nest", dict(mu=3, mo=3, md=1, multi=True)), ("nestdup", dict(mu=3, mo=3, md=1, multi=True)),
+                 ("sbr", dict(mg=2, mu=4, mo=4, md=2)), ("nsbr", dict(mg=2, mu=4, mo=4, md=2, multi=True))]
     else:
-        fixed = [("par2", dict(mg=1)), ("seq", dict(mg=1)), ("nestdup", dict(mu=3, mo=3))]
+        fixed = [("par2", dict(mg=1)), ("seq", dict(mg=1)), ("nestdup", dict(mu=3, mo=3)), ("nest", dict(mu=2, mo=2, md=1, multi=True)),
+                 ("sbr", dict(mu=3, mo=3, md=1)), ("nsbr", dict(mu=3, mo=3, md=1, multi=True))]
     jobs = [(lambda s=s, kw=kw: cb.cb_model(s, fix=True, workers=1 if not thorough else 2, timeout=1500 if thorough else 170, **kw)) for s, kw in fixed]
+    jobs.append(lambda: cb.cb_model("sbr", fix=True, late=True, workers=1, timeout=170, mu=3, mo=3, md=1))
     jobs.append(lambda: cb.cb_model("par2", fix=False, workers=1, timeout=170, mg=1))
     runs = _par(jobs, 4 if not thorough else 2)
     states = trans = 0
     model_runs = []
-    for (s, kw), run in zip(fixed, runs[:-1]):
+    late = runs[-2]
+    if late.timed_out or late.error != "invariant:RuleOK":
+        raise Inconclusive("C10 model variant LateFlag (graph start compensated after an early return) should violate RuleOK: TLC reported %s\n%s" % (
+            late.error, late.stdout[-1500:]))
+    for (s, kw), run in zip(fixed, runs[:-2]):
         vlib.tlc_must_pass(run, "C10 model (with repair) %s" % s)
         states += run.distinct
         trans += run.generated
         model_runs.append({"model": "Callbacks/CopyFix", "shape": s, "bounds": kw, "distinct": run.distinct, "generated": run.generated,
                            "depth": run.depth, "wall_s": round(run.wall_s, 1), "result": "RuleOK holds"})
         log("  model Callbacks[%s, repaired]: RuleOK holds, %d distinct states, %d generated, depth %d, %.0fs" % (s, run.distinct, run.generated, run.depth, run.wall_s))
+    model_runs.append({"model": "Callbacks/CopyFix+LateFlag (seeded variant: haveOnStart set behind the fresh-start block)", "shape": "sbr",
+                       "distinct": late.distinct, "wall_s": round(late.wall_s, 1), "result": "RuleOK violated (start-twice), as it must be"})
     asis = runs[-1]
     if asis.timed_out or asis.error not in (None, "invariant:RuleOK"):
         raise Inconclusive("C10 model as coded: TLC reported %s\n%s" % (asis.error, asis.stdout[-2000:]))
@@ -133,16 +142,26 @@ def c10(tier, repo=None):
     # 2. generation ---------------------------------------------------------------------------------------------------
     if thorough:
         gens = [("par2", dict(mg=2, mu=4, mo=4, md=2, multi=True), None, 4000), ("seq", dict(mg=1), None, 336),
-                ("nestdup", dict(mu=3, mo=3), None, 3000), ("nest", dict(mu=3, mo=3), "num=2500", 3000), ("par3", dict(mu=4, mo=4), "num=2500", 3000)]
+                ("nestdup", dict(mu=3, mo=3), None, 3000), ("nest", dict(mu=3, mo=3), "num=2500", 3000), ("par3", dict(mu=4, mo=4), "num=2500", 3000),
+                ("nest", dict(mu=3, mo=3, md=2, multi=True), "num=2000", 2500), ("nestdup", dict(mu=3, mo=3, md=2, multi=True), "num=1500", 2000),
+                ("sbr", dict(mg=2, mu=4, mo=4, md=2), None, 2000), ("nsbr", dict(mg=2, mu=4, mo=4, md=2, multi=True), None, 2500)]
     else:
-        gens = [("par2", dict(mg=1, mu=3, mo=3, md=2), None, 700), ("seq", dict(mg=1, mu=3, mo=3), None, 80),
-                ("nestdup", dict(mu=3, mo=3), "num=200", 300), ("nest", dict(mu=3, mo=3), "num=200", 300), ("par3", dict(mu=3, mo=3), "num=150", 250)]
+        gens = [("par2", dict(mg=1, mu=3, mo=3, md=2), None, 550), ("par2", dict(mg=1, mu=2, mo=2, md=1, multi=True), None, 120),
+                ("seq", dict(mg=1, mu=3, mo=3), None, 60),
+                ("nestdup", dict(mu=3, mo=3), "num=150", 220), ("nest", dict(mu=3, mo=3), "num=150", 220), ("par3", dict(mu=3, mo=3), "num=120", 200),
+                # one option designated to SEVERAL paths, top-level and nested, in both orders
+                ("nest", dict(mu=2, mo=2, md=1, multi=True), "num=150", 250), ("nestdup", dict(mu=2, mo=2, md=1, multi=True), "num=100", 150),
+                # runs that end inside the START step (branch on START selects END / fails / interrupt-before), top-level and nested
+                ("sbr", dict(mu=2, mo=2, md=1), None, 220), ("nsbr", dict(mu=2, mo=2, md=1, multi=True), None, 260)]
 
     def gen(shape, kw, sim, limit):
         cases, run = cb.cb_generate(shape, simulate=sim, depth=80 if sim else None, seed=vlib.SEED if sim else None,
-                                    workers=2 if sim else (4 if thorough else 2), timeout=1500 if thorough else 170, **kw)
+                                    workers=2 if sim else (4 if thorough else 2), timeout=1500 if thorough else 170,
+                                    tag="_m" if kw.get("multi") else "", **kw)
+        for c in cases:
+            c["fam"] = shape + ("+multi" if kw.get("multi") else "")
         return shape, kw, sim, limit, cases, run
-    res = _par([(lambda g=g: gen(*g)) for g in gens], 3 if not thorough else 2)
+    res = _par([(lambda g=g: gen(*g)) for g in gens], 4 if not thorough else 2)
     cases, fams = [], []
     for shape, kw, sim, limit, cs, run in res:
         total = len(cs)
@@ -201,8 +220,8 @@ def c10(tier, repo=None):
         log("  -race pass: %d cases, %d distinct data-race reports %s, %d cases rejected by CbObs" % (len(sub), len(reps), reps[:4], len(res_r["bad"])))
 
     def nontrivial(c):
-        return len(c["handlers"]) >= 2 and len([u for u in c["units"] if not u["graph"]]) >= 2
-    distinct = {json.dumps([c["shape"], c["ng"], c["split"], [h["paths"] for h in c["handlers"]], c["fail"], c["sched"]]) for c in cases if nontrivial(c)}
+        return len(c["handlers"]) >= 2 and (len([u for u in c["units"] if not u["graph"]]) >= 2 or c.get("bsel", "node") != "node")
+    distinct = {json.dumps([c["shape"], c["ng"], c["split"], [h["paths"] for h in c["handlers"]], c["fail"], c.get("bsel"), c["sched"]]) for c in cases if nontrivial(c)}
     some = [idx[k] for k in vlib.sample(sorted(idx.keys()), 3)]
     cov = {"states": states, "transitions": trans, "traces_validated_against_impl": len(idx),
            "samples": [{"case": c, "observations": [json.loads(x) for x in o[1:10]]} for c, o in some],
